@@ -7,6 +7,7 @@ Zip._create_context, group_plots - are judged too) and (b) a law checker in
 run_case that compares with a reference model of the containment order
 (rv/props/_c07_model.py): meet, difference, recursive update, reconstruction.
 """
+import copy
 import itertools
 
 from rv.props import _c07_model as M
@@ -98,6 +99,10 @@ def mids(v, acc):
         acc.add(id(v))
         for x in v:
             mids(x, acc)
+    elif isinstance(v, tuple):
+        # immutable itself; the dicts / lists it holds are not
+        for x in v:
+            mids(x, acc)
     return acc
 
 
@@ -111,6 +116,10 @@ def shares(v, ids):
     elif type(v) is list:
         if id(v) in ids:
             return True
+        for x in v:
+            if shares(x, ids):
+                return True
+    elif isinstance(v, tuple):
         for x in v:
             if shares(x, ids):
                 return True
@@ -167,6 +176,9 @@ def cases(tier, seed):
     subs = M.enum_dicts(LEAVES["q3"], 1)
     for i in range(0, len(subs), 2 if tier == "quick" else 1):
         yield {"k": "aliased", "x": subs[i]}
+    # values that are tuples holding dictionaries and lists (the context of a Zip, tuples of
+    # ranges): the result of intersection is a deep copy of them too
+    yield {"k": "tupleleaf"}
     # update_recursively(d, "a.b.c") without a value, applied to several dictionaries in turn
     # with in-place updates of what it inserted in between
     for i in range(6 if tier == "quick" else 40):
@@ -646,6 +658,44 @@ def _run(r, obs, rep, F):
         obs.nontrivial = nontriv > 0
     elif k == "users":
         _users(r, obs, rep, F)
+    elif k == "tupleleaf":
+        import collections
+        obs.nontrivial = True
+        NT = collections.namedtuple("NT", ["lo", "hi"])
+
+        def mk():
+            return {"zip": ({"a": 1, "n": {"k": [1]}}, {"b": [1, 2]}), "a": 1,
+                    "ranges": ([0, 1], [0, 2]), "nt": NT([0], {"h": 1}),
+                    "deep": {"t": (1, ({"x": [5]},))}}
+        others = [mk(), dict(mk(), a=2), {"zip": mk()["zip"]}, dict(mk(), extra=1)]
+        for other in others:
+            for args in ((mk(), other), (other, mk()), (mk(),), (mk(), other, mk())):
+                snaps = copy.deepcopy(args)
+                res = F.intersection(*args)       # the live contract walks into the tuples
+                rep.evals += 1
+                obs.count("tuple_leaf_intersections")
+                exp = dict((kk, vv) for kk, vv in args[0].items()
+                           if all(kk in a and a[kk] == vv for a in args[1:]))
+                if res != exp:
+                    rep.fail("intersection-differs-for-tuple-valued-items",
+                             "intersection(%s) = %r, expected %r" % (_short(*args), res, exp))
+                # ordinary later use of the result: change it in place at every level
+                for v in res.values():
+                    stack = [v]
+                    while stack:
+                        x = stack.pop()
+                        if isinstance(x, dict):
+                            stack.extend(x.values())
+                            x["__changed__"] = 1
+                        elif isinstance(x, list):
+                            stack.extend(x)
+                            x.append("__changed__")
+                        elif isinstance(x, tuple):
+                            stack.extend(x)
+                if repr(args) != repr(snaps):
+                    rep.fail("argument-changed",
+                             "changing the result of intersection in place (inside tuple-valued "
+                             "items) changed an argument: %r -> %r" % (snaps, args))
     elif k == "strform":
         # update_recursively(d, "a.b", value) == update_recursively(d, str_to_dict("a.b", value))
         obs.nontrivial = True
